@@ -158,6 +158,10 @@ def one_setup(chk, drv, it, stats):
     chi = (it % 3) if adiabatic else None
     if it < 6:
         nth = max(nth, 3)
+    if it % 10 == 7:
+        # poloidal sizes for which (k * (1/n)) * n is not exactly k for some mode number k (fftfreq gives exact integers there)
+        nth = rng.choice([14, 17, 18])
+        nz = 1
     cfg = {'qdeg': rng.choice([2 * d, 2 * d + 1, 7, 6, 3]), 'adiabatic': adiabatic, 'chi': chi,
            'B': rng.choice([1.0, 1.0, 2.0]), 'dens_degree': rng.choice([3, 6]), 'custom_profiles': rng.random() < 0.3}
     rrange = rng.choice([(0.1, 14.5), (1.0, 3.0), (2.0, 9.0)])
